@@ -744,6 +744,11 @@ class Interp:
         sc = np.linalg.norm(o.model, 2) * np.linalg.norm(t) ** 2
         ok, v = self.guard("observe.expectation", a.obj.expectation, o.obj)
         if ok:
+            ref = complex(ref)
+            if not isinstance(v, complex) and abs(ref.imag) <= 1.0000001e-8:
+                # documented: a float is returned when the imaginary part is negligible; the code's notion of negligible is an
+                # ABSOLUTE 1e-8 (np.isclose(imag, 0)), so a real return value may hide that much (sharp return-type checks: C07)
+                ref = complex(ref.real, 0.0)
             self._obs("expectation", v, ref, sc)
 
 
